@@ -192,6 +192,15 @@ type c02Session struct {
 type c02Line struct {
 	K int `json:"k"`
 	S Q   `json:"s"`
+	F int `json:"form,omitempty"` // K=1: which well-formed shape carries the number
+}
+
+var c02Forms = []string{
+	":vsrc!v@v PRIVMSG #vchan :%s",
+	"@t=1;u=x\\sy :vsrc!v@v PRIVMSG #vchan :%s",
+	":vsrc!v@v NOTICE me :%s",
+	"@time=2020-01-01T00:00:00Z;+ex/k :vsrc!v@v PRIVMSG  #vchan   :%s",
+	"@a :vsrc!v@v notice &x :%s",
 }
 
 var probeParams = []string{"", "x", "me", "#c", ":", ":me", "1", "LS", "ACK", "NAK", "sasl", "+", "*", "@me", "+o", "-k", "me!u@h", "=", "\x01PING\x01", "\x01VERSION\x01", "a b"}
@@ -242,7 +251,7 @@ func genC02Session(t *rapid.T) *c02Session {
 			s.Lines = append(s.Lines, c02Line{K: 0, S: Q(genHostileLine(t, "hostile"))})
 		default:
 			seq++
-			s.Lines = append(s.Lines, c02Line{K: 1, S: Q(fmt.Sprintf("%d", seq))})
+			s.Lines = append(s.Lines, c02Line{K: 1, S: Q(fmt.Sprintf("%d", seq)), F: rapid.IntRange(0, len(c02Forms)-1).Draw(t, "form")})
 		}
 	}
 	seq++
@@ -261,13 +270,15 @@ func runC02Session(s *c02Session) *Violation {
 	var mu sync.Mutex
 	var log []string
 	const pfx = "Sq7Gz-"
-	tc.C.HandleFunc("PRIVMSG", func(_ *client.Conn, l *client.Line) {
+	rec := func(_ *client.Conn, l *client.Line) {
 		if txt := l.Text(); strings.HasPrefix(txt, pfx) && l.Nick == "vsrc" {
 			mu.Lock()
 			log = append(log, txt[len(pfx):])
 			mu.Unlock()
 		}
-	})
+	}
+	tc.C.HandleFunc("PRIVMSG", rec)
+	tc.C.HandleFunc("NOTICE", rec)
 	if err := tc.connect(); err != nil {
 		return violationf("C02", "connect: %v", err)
 	}
@@ -277,7 +288,7 @@ func runC02Session(s *c02Session) *Violation {
 	for _, ln := range s.Lines {
 		var wire string
 		if ln.K == 1 {
-			wire = ":vsrc!v@v PRIVMSG #vchan :" + pfx + string(ln.S)
+			wire = fmt.Sprintf(c02Forms[ln.F%len(c02Forms)], pfx+string(ln.S))
 			want = append(want, string(ln.S))
 		} else {
 			wire = strings.ReplaceAll(string(ln.S), "\n", " ")
@@ -361,7 +372,7 @@ func TestC02_Regress(t *testing.T) {
 			t.Errorf("VIOLATION C02: %s", v.Msg)
 		}
 	}
-	sess := &c02Session{Tracking: true, Lines: []c02Line{{0, "@a "}, {0, ":src "}, {0, "PRIVMSG x"}, {0, ":a@b!c X"}, {0, "PING"}, {0, "433"}, {0, "JOIN"}, {0, "CAP"}, {1, "1"}}}
+	sess := &c02Session{Tracking: true, Lines: []c02Line{{K: 0, S: "@a "}, {K: 0, S: ":src "}, {K: 0, S: "PRIVMSG x"}, {K: 0, S: ":a@b!c X"}, {K: 0, S: "PING"}, {K: 0, S: "433"}, {K: 0, S: "JOIN"}, {K: 0, S: "CAP"}, {K: 1, S: "1"}}}
 	if v := runC02Session(sess); v != nil {
 		writeReplay("TestC02_Session", v, sess)
 		t.Errorf("VIOLATION C02: %s", v.Msg)
